@@ -618,10 +618,20 @@ class Arbiter:
                                    self.app, self.timeout / 2.0,
                                    self.cfg, self.log)
         self.cfg.pre_fork(self, worker)
-        pid = os.fork()
+        # The child can die, and SIGCHLD be handled, before the pid returned
+        # by fork() is entered into WORKERS: reap_workers() would then drop
+        # the unknown pid and a dead, reaped process would be tracked as a
+        # live worker. Hold SIGCHLD back until the worker is registered.
+        signal.pthread_sigmask(signal.SIG_BLOCK, [signal.SIGCHLD])
+        try:
+            pid = os.fork()
+            if pid != 0:
+                worker.pid = pid
+                self.WORKERS[pid] = worker
+        finally:
+            # in the parent and in the child (which inherits the mask)
+            signal.pthread_sigmask(signal.SIG_UNBLOCK, [signal.SIGCHLD])
         if pid != 0:
-            worker.pid = pid
-            self.WORKERS[pid] = worker
             return pid
 
         # Do not inherit the temporary files of other workers
